@@ -485,6 +485,53 @@ func (h *vSd) exec(op []string) {
 		}
 		_ = e.conn.Close()
 		h.line(line, res)
+	case "forge": // a packet x never sent, handed to the other side (NOT kept in x's history): error paths a genuine peer never reaches
+		// sd forge x SD <cum> | sd forge x S <cum> <a-b+c-d|-> | sd forge x D <tsn> <id> <sid> <ssn>   (counts / TSNs relative as in the summaries)
+		x := arg(2)
+		y := 1 - x
+		me, peer := h.ep[x], h.ep[y]
+		var c chunk
+		switch op[3] {
+		case "SD":
+			c = &chunkShutdown{cumulativeTSNAck: peer.base + vAtoU32(t, op[4]) - 1}
+		case "S":
+			cum := vAtoU32(t, op[4])
+			sack := &chunkSelectiveAck{cumulativeTSNAck: peer.base + cum - 1, advertisedReceiverWindowCredit: 1 << 20}
+			if op[5] != "-" {
+				for _, g := range strings.Split(op[5], "+") {
+					ab := strings.Split(g, "-")
+					sack.gapAckBlocks = append(sack.gapAckBlocks, gapAckBlock{start: uint16(vAtoU32(t, ab[0]) - (cum - 1)), end: uint16(vAtoU32(t, ab[1]) - (cum - 1))})
+				}
+			}
+			c = sack
+		case "D":
+			payload := make([]byte, 8)
+			binary.BigEndian.PutUint32(payload, vAtoU32(t, op[5]))
+			d := &chunkPayloadData{tsn: me.base + vAtoU32(t, op[4]), streamIdentifier: uint16(arg(6)), streamSequenceNumber: uint16(arg(7)),
+				beginningFragment: true, endingFragment: true, payloadType: PayloadTypeWebRTCBinary, userData: payload}
+			if me.a.useInterleaving {
+				d.iData = true
+				d.messageIdentifier = vAtoU32(t, op[7])
+			}
+			c = d
+		default:
+			t.Fatalf("sd: forge %v", op)
+		}
+		me.a.lock.RLock()
+		raw, err := me.a.marshalPacket(me.a.createPacket([]chunk{c}))
+		me.a.lock.RUnlock()
+		if err != nil {
+			t.Fatalf("sd: forge marshal: %v", err)
+		}
+		sum := h.packetSummary(x, raw)
+		if vSdChanClosed(peer.a.readLoopCloseCh) {
+			h.line(line, sum+" dropped")
+			return
+		}
+		if err := peer.a.handleInbound(raw); err != nil {
+			t.Fatalf("sd: handleInbound(forged): %v", err)
+		}
+		h.line(line, sum)
 	case "fin": // end of a sequence; `fin 1` = the tail of the schedule was fault-free
 		h.line(line, "done")
 	default:
@@ -656,6 +703,10 @@ func vSdGenerate(h *vSd, r *vrand, nseq int) {
 		// chaos phase: mostly progressing, with loss / duplication / reordering / stale replays
 		nops := 4 + r.n(50)
 		wantShutdownAt := nops/3 + r.n(nops)
+		forgeMode := s%12 == 5 || s%12 == 10 // a lying network: forged acknowledgements and out-of-window DATA (error paths); no delivery claim is checked
+		if forgeMode {
+			h.l.stat("sd.forge_sequences")
+		}
 		for i := 0; i < nops; i++ {
 			x := r.n(2)
 			n := len(h.ep[x].hist)
@@ -668,6 +719,37 @@ func vSdGenerate(h *vSd, r *vrand, nseq int) {
 					h.do("sd shutdown %d", 1-x)
 					h.l.stat("sd.gen_crossed")
 				}
+				continue
+			}
+			if forgeMode && r.chance(15) {
+				e := h.ep[x]
+				e.a.lock.RLock()
+				sent := e.a.myNextTSN - e.base
+				cum := e.a.cumulativeTSNAckPoint - e.base + 1
+				pl := e.a.payloadQueue.getcumulativeTSN() - h.ep[1-x].base + 1
+				e.a.lock.RUnlock()
+				switch r.n(6) {
+				case 0: // SHUTDOWN acknowledging more than was ever sent
+					h.do("sd forge %d SD %d", 1-x, sent+1+uint32(r.n(3)))
+				case 1: // SHUTDOWN with any plausible or stale point
+					h.do("sd forge %d SD %d", 1-x, uint32(r.n(int(sent)+1)))
+				case 2: // SACK beyond what was sent
+					h.do("sd forge %d S %d -", 1-x, sent+1+uint32(r.n(3)))
+				case 3: // SACK with gap blocks that are not in flight / reversed / touching the cumulative point
+					c := cum + uint32(r.n(2))
+					a := c - 1 + uint32(r.n(4))
+					b := a + uint32(r.n(3))
+					if r.chance(20) && a > 0 {
+						a, b = b+1, a
+					}
+					h.do("sd forge %d S %d %d-%d", 1-x, c, a, b)
+				case 4: // DATA just inside / just outside the receive window
+					off := h.ep[x].a.payloadQueue.maxTSNOffset
+					h.do("sd forge %d D %d 9999 0 %d", 1-x, pl+off-1+uint32(r.n(2)), 20000+r.n(1000))
+				default:
+					h.do("sd forge %d D %d 9999 0 %d", 1-x, pl+uint32(h.ep[x].a.payloadQueue.maxTSNOffset)+uint32(r.n(5)), 20000+r.n(1000))
+				}
+				h.l.stat("sd.gen_forged")
 				continue
 			}
 			k := r.n(100)
@@ -713,7 +795,7 @@ func vSdGenerate(h *vSd, r *vrand, nseq int) {
 			}
 		}
 		// fault-free tail (most sequences): every packet produced from now on is delivered once, in order
-		tail := r.chance(85)
+		tail := r.chance(85) && !forgeMode
 		if tail {
 			if !h.gatePassed {
 				x := r.n(2)
